@@ -158,6 +158,8 @@ CHECKS = {
             {"harnesses": [H + "ZZH8SourceMap"], "flags": VLQ_REDIRECT, "quick": dict(GEN_Q, budget=1, atoms=2, concretepos=0, pretty=0), "thorough": dict(GEN_Q, atoms=2, concretepos=0, pretty=0)},
             {"harnesses": [H + "ZZH8SourceMap"], "flags": VLQ_REDIRECT, "quick": dict(GEN_Q, budget=1, atoms=2, concretepos=0, pretty=1, indents=4), "thorough": dict(GEN_Q, atoms=2, concretepos=0, pretty=1, indents=4)},
             {"harnesses": [H + "ZZH8SourceMap"], "flags": VLQ_REDIRECT, "quick": dict(GEN_Q, budget=1, concretepos=0, pretty=1, trivia=1, triviakinds=6), "thorough": dict(GEN_Q, concretepos=0, pretty=1, trivia=1, triviakinds=3)},
+            # a compiler object that has compiled another program before (sharing an identifier at another name index)
+            {"harnesses": [H + "ZZH8SourceMap"], "flags": VLQ_REDIRECT, "quick": dict(GEN_Q, budget=1, stmts=1, atoms=2, concretepos=0, pretty=0, reuse=1), "thorough": dict(GEN_Q, budget=1, atoms=2, concretepos=0, pretty=0, reuse=1)},
             # token start positions are the lexer's (layer L): the step lemma of C10 on a 5-byte window, which includes
             # multi-line literals followed by further tokens on their closing line
             {"harnesses": [LX + "ZZH10Step"], "quick": {"K": 5, "prefix": 0}, "thorough": {"K": 7, "prefix": 0}},
